@@ -968,7 +968,7 @@ spifconf_parse_line(FILE * fp, spif_charptr_t buff)
               spif_char_t cmd[PATH_MAX], fname[PATH_MAX];
               spif_charptr_t outfile;
               int fd;
-              FILE *fp;
+              FILE *pfp;      /* (not "fp":  SPIFCONF_PARSE_RET() looks at the function's own fp) */
 
               if (file_peek_preproc()) {
                   SPIFCONF_PARSE_RET();
@@ -979,10 +979,10 @@ spifconf_parse_line(FILE * fp, spif_charptr_t buff)
               snprintf((char *) cmd, PATH_MAX, "%s < %s > %s",
                        spiftool_get_pword(2, buff), file_peek_path(), fname);
               system((char *) cmd);
-              fp = fdopen(fd, "rt");
-              if (fp) {
+              pfp = fdopen(fd, "rt");
+              if (pfp) {
                   fclose(file_peek_fp());
-                  file_poke_fp(fp);
+                  file_poke_fp(pfp);
                   file_poke_preproc(1);
                   file_poke_outfile(outfile);
               } else {
